@@ -19,7 +19,7 @@ answer  : `<dom> <nolf> <spec> <model> <agree>`
 * `model` : what the model of the code computes (`sendCommand` / `sendCommands` / `sendConfig`)
 * `agree` : the model's outcome, projected to the spec's format, equals the spec (run-time echo of the theorems)
 -/
-namespace Driver
+namespace Driver.C13
 open Scrapli Scrapli.Failed
 
 namespace C13
@@ -125,4 +125,4 @@ def handleC13 : List String → String
     | _, _, _, _ => "bad-op"
   | _ => "bad-op"
 
-end Driver
+end Driver.C13
